@@ -334,6 +334,9 @@ def check(gir, include_dirs=(), strict_includes=True):
                     ms = [m for m in owner.findall(GI + 'method') if m.get('name') == el.get(attr)]
                     if not ms:
                         bad('property-accessor-is-not-a-method', '%s %s=%s' % (path_of(el), attr, el.get(attr)))
+                    elif all(_is_off(m, parents) for m in ms):
+                        # the typelib compiler leaves such a method out and then aborts on the accessor reference
+                        bad('property-accessor-not-introspectable', '%s %s=%s' % (path_of(el), attr, el.get(attr)))
                     elif not any(m.get(back) == el.get('name') for m in ms):
                         # a method can name one property only: when the property it names claims it too, this
                         # property's claim cannot be answered (two annotations/heuristics compete for one method)
